@@ -6,10 +6,10 @@ patch=$1; shift
 scr=/var/tmp/verif-seedtest.$$
 rm -rf "$scr"; mkdir -p "$scr" && git -C /repo archive HEAD | tar -x -C "$scr" || exit 3
 (cd "$scr" && patch -p1 -s < "$patch") || { echo "APPLY FAILED"; rm -rf "$scr"; exit 3; }
-cd /verif
+V=$(cd "$(dirname "$0")/.." && pwd); cd "$V"
 mkdir -p /var/tmp/vt
 for p in "$@"; do
   VERIF_REPO="$scr" VERIF_GEN_TAG="_st$$" VERIF_NO_EVIDENCE=1 ./vcheck $p > /var/tmp/vt/seed.$$.out 2>&1; rc=$?
   echo "== $p exit=$rc"; grep -E 'VIOLATION|UNDECIDED|failed obligation|clause:|at    :' /var/tmp/vt/seed.$$.out | head -12
 done
-rm -rf "$scr" /var/tmp/vt/seed.$$.out /verif/gen/*_st$$*
+rm -rf "$scr" /var/tmp/vt/seed.$$.out "$V"/gen/*_st$$*
